@@ -380,14 +380,52 @@ func (se *symEval) stmt(st ast.Stmt, cur symVal) (symVal, bool) {
 		}
 		out := symUndef
 		anyAlive, hasDefault := false, false
-		for _, cc := range v.Body.List {
+		// which arm runs, as far as the assumptions decide it (first match wins; a case is
+		// "tag == value" for a tagged switch, the condition itself otherwise)
+		caseTruth := func(e ast.Expr) (bool, bool) {
+			if v.Tag == nil {
+				return se.evalCond(e, cur)
+			}
+			key := se.res.str(v.Tag) + " == " + se.res.str(e)
+			if t, k := se.assume(key); k {
+				return t, true
+			}
+			if t, k := se.assume(se.res.str(e) + " == " + se.res.str(v.Tag)); k {
+				return t, true
+			}
+			return false, false
+		}
+		taken := -1      // index of the arm known to run
+		allFalse := true // every case expression of every arm is known false
+		for i, cc := range v.Body.List {
+			clause := cc.(*ast.CaseClause)
+			for _, e := range clause.List {
+				t, k := caseTruth(e)
+				if k && t && taken < 0 && allFalse {
+					taken = i
+				}
+				if !k || t {
+					allFalse = false
+				}
+			}
+		}
+		for i, cc := range v.Body.List {
 			clause := cc.(*ast.CaseClause)
 			if clause.List == nil {
 				hasDefault = true
 			}
-			// an untagged switch with decidable case conditions
-			if v.Tag == nil && len(clause.List) == 1 {
-				if t, k := se.evalCond(clause.List[0], cur); k && !t {
+			if taken >= 0 && i != taken {
+				continue
+			}
+			if taken < 0 {
+				// skip arms all of whose case expressions are known false
+				known := len(clause.List) > 0
+				for _, e := range clause.List {
+					if t, k := caseTruth(e); !k || t {
+						known = false
+					}
+				}
+				if known {
 					continue
 				}
 			}
@@ -400,7 +438,7 @@ func (se *symEval) stmt(st ast.Stmt, cur symVal) (symVal, bool) {
 				anyAlive = true
 			}
 		}
-		if !hasDefault {
+		if !hasDefault && taken < 0 {
 			// No case taken.  A variable that only the cases assign keeps its earlier value.
 			out = symJoin(out, cur)
 			anyAlive = true
@@ -630,4 +668,119 @@ func maxHoldsAtEnd(l *Loaded, res *resolver, fi *FuncInfo, target, src string) (
 		return v.s
 	}
 	return false, target + " becomes " + show(vals[0]) + " when " + src + " is larger, " + show(vals[1]) + " when it is smaller and " + show(vals[2]) + " when equal"
+}
+
+// --- results per exit path ------------------------------------------------------------------
+
+// exitPath is one path (one disjunct of the exit's facts) to one exit of a function, with the
+// value of every result on that path: the returned expression, or - for a variable or a named
+// result (also with a bare return) - what the variable holds at the return when the path's
+// facts are assumed.  Rules that classify exits by what they return use this instead of the
+// return statement's text, so that "named results and a single return at the end" and "early
+// returns" read the same.
+type exitPath struct {
+	Ex    *ExitRec
+	Facts FactSet
+	Vals  []symVal
+}
+
+// holds: the fact key has polarity pol on this path.
+func (xp exitPath) holds(key string, pol bool) bool {
+	v, ok := xp.Facts[key]
+	return ok && v == pol
+}
+
+func exitPaths(l *Loaded, db *SiteDB, fi *FuncInfo, res *resolver) []exitPath {
+	info := fi.Pkg.TypesInfo
+	var named []*ast.Ident
+	if fi.Decl.Type.Results != nil {
+		for _, f := range fi.Decl.Type.Results.List {
+			named = append(named, f.Names...)
+		}
+	}
+	var out []exitPath
+	for _, ex := range db.Exits[fi] {
+		if ex.Fn != ast.Node(fi.Decl) || ex.St.Dead {
+			continue
+		}
+		var exprs []ast.Expr
+		var at ast.Node
+		if ex.Ret != nil {
+			at = ex.Ret
+			exprs = ex.Ret.Results
+		}
+		if len(exprs) == 0 {
+			for _, nm := range named {
+				exprs = append(exprs, nm)
+			}
+		}
+		if len(exprs) == 0 {
+			continue
+		}
+		for _, p := range ex.St.Paths {
+			facts := p
+			assume := func(key string) (bool, bool) {
+				v, ok := facts[key]
+				return v, ok
+			}
+			xp := exitPath{Ex: ex, Facts: facts}
+			for _, e := range exprs {
+				e = unparen(e)
+				obj := objOf(info, e)
+				if v, isVar := obj.(*types.Var); isVar && obj.Parent() != obj.Pkg().Scope() && !v.IsField() {
+					xp.Vals = append(xp.Vals, valueOfObjAt(l, res, fi, obj, at, assume))
+				} else {
+					xp.Vals = append(xp.Vals, symVal{s: res.str(e), e: e})
+				}
+			}
+			out = append(out, xp)
+		}
+	}
+	return out
+}
+
+// valueOfObjAt: the value of a local variable (or named result) just before the statement at
+// (nil: at the end of the function), under the assumptions.
+func valueOfObjAt(l *Loaded, res *resolver, fi *FuncInfo, obj types.Object, at ast.Node, assume func(string) (bool, bool)) symVal {
+	se := &symEval{l: l, info: fi.Pkg.TypesInfo, res: res, fi: fi, obj: obj, use: at, assume: assume}
+	start := symUndef
+	if obj.Pos() < fi.Decl.Body.Pos() {
+		// parameters hold their own name; named results start at their zero value
+		start = symVal{s: res.nameOf(obj)}
+		if fi.Decl.Type.Results != nil {
+			for _, f := range fi.Decl.Type.Results.List {
+				for _, nm := range f.Names {
+					if fi.Pkg.TypesInfo.Defs[nm] == obj {
+						start = symVal{s: zeroText(obj.Type())}
+					}
+				}
+			}
+		}
+	}
+	v, alive := se.walk(fi.Decl.Body.List, start)
+	if se.found {
+		return se.result
+	}
+	if at == nil && alive {
+		return v
+	}
+	return symUnknown
+}
+
+// zeroText renders the zero value of a type the way the rules compare it.
+func zeroText(t types.Type) string {
+	switch u := t.Underlying().(type) {
+	case *types.Basic:
+		switch {
+		case u.Info()&types.IsBoolean != 0:
+			return "false"
+		case u.Info()&types.IsString != 0:
+			return `""`
+		case u.Info()&types.IsNumeric != 0:
+			return "0"
+		}
+	case *types.Pointer, *types.Interface, *types.Slice, *types.Map, *types.Chan, *types.Signature:
+		return "nil"
+	}
+	return "zero"
 }
